@@ -31,125 +31,13 @@ CORPUS = [
 ]
 
 
-def gen_special_cases(rng, now_ms):
-    """helper cases with an answer known by construction: time helpers, datetime, json()/xml() hops, limit"""
-    out = []
-    for name, unit in kfl.UNIT_MS.items():
-        for n in (-5, 5, 0, 1):
-            for delta in (-600000, 600000):
-                for op in ('<=', '>=', '<', '>'):
-                    q = ('C', [('path', [('k', 'a')]), ('call', [], name, [('U', '-', ('num', str(-n))) if n < 0 else ('num', str(n))])], [op])
-                    out.append((q, {"a": now_ms + n * unit + delta}, {}))
-    for delta in (-600000, 600000):
-        for op in ('<=', '>='):
-            out.append((('C', [('path', [('k', 'a')]), ('call', [], 'now', [])], [op]), {"a": now_ms + delta}, {}))
-    base = 1634668142000                      # 10/19/2021, 6:29:02.000 PM UTC
-    for d in (-1, 0, 1):
-        for op in ('>', '>=', '<', '=='):
-            node = ('Q' if op == '==' else 'C', [('path', [('k', 'a')]), ('call', [], 'datetime', [('str', '10/19/2021, 6:29:02.000 PM')])], [op])
-            out.append((node, {"a": base + d}, {}))
-    out.append((('call', [], 'datetime', [('str', 'not a date')]), {}, {}))
-    docs = [{"b": 1, "c": {"d": [1, 2, {"k": "v"}]}, "k": [{"x": 1}, {"x": 2}]}, [1, 2, "x"], {"b": "x", "k": 1000000}, {}, 5]
-    subs = [[('k', 'b')], [('k', 'c'), ('k', 'd')], [('i', 0)], [('b', 'b')], [('bw',)], [('d', 'x')], [('k', 'k'), ('w',), ('k', 'x')],
-            [('k', 'c'), ('k', 'd'), ('w',)], [('k', 'zz')], [('k', 'k')]]
-    lits = [('num', '1'), ('num', '2'), ('str', 'x'), ('num', '1000000'), ('str', 'v')]
-    for doc in docs:
-        for sub in subs:
-            for b64 in (False, True):
-                text = kfl.json_of(doc)
-                if b64:
-                    text = base64.b64encode(text.encode()).decode()
-                lit = rng.choice(lits)
-                op = rng.choice(['==', '==', '!=', '>', '<='])
-                node = ('Q' if op in ('==', '!=') else 'C', [('hop', [('k', 'a')], 'json', sub), lit], [op])
-                out.append((node, {"a": text, "b": 1}, {}))
-    out.append((('Q', [('hop', [('k', 'a')], 'json', [('k', 'b')]), ('num', '1')], ['==']), {"a": "INVALID JSON"}, {}))
-    out.append((('Q', [('hop', [('k', 'zz')], 'json', [('k', 'b')]), ('num', '1')], ['==']), {"a": "{}"}, {}))
-    xml_specs = [("r", {}, None, [("b", {}, "1", []), ("c", {"x": "2"}, "t", [])]),
-                 ("r", {}, None, [("b", {}, "u", []), ("b", {}, "v", [])]),
-                 ("r", {"id": "7"}, "txt", [])]
-    for spec in xml_specs:
-        text = kfl.xml_render(spec)
-        for sub in ([('k', 'r'), ('k', 'b')], [('k', 'r'), ('k', 'c')], [('k', 'r')], [('k', 'r'), ('k', 'zz')]):
-            for b64 in (False, True):
-                t = base64.b64encode(text.encode()).decode() if b64 else text
-                for lit in ('1', 't', 'u', 'txt'):
-                    node = ('Q', [('hop', [('k', 'a')], 'xml', sub), ('str', lit)], ['=='])
-                    out.append((node, {"a": t}, {text: spec}))
-    for n in ('100', '1', '0', '7'):
-        for other in (('Q', [('path', [('k', 'a')]), ('num', '1')], ['==']), ('true',), ('false',)):
-            lim = ('call', [], 'limit', [('num', n)])
-            out.append((('L', [other, lim], ['and']), {"a": 1}, {}))
-            out.append((('L', [lim, other], ['and']), {"a": 2}, {}))
-            out.append((('L', [lim, ('call', [], 'limit', [('num', '9')])], ['or']), {"a": 2}, {}))
-    for name in ('startsWith', 'endsWith', 'contains'):
-        for subj in ("Chevrolet", 1000000, 1.5, True, None):
-            for a in ("Chev", "let", "vro", "", "1e+06", "1", "true", "null", "x"):
-                out.append((('call', [('k', 'a'), ('k', 'b')], name, [('str', a)]), {"a": {"b": subj}}, {}))
-                out.append((('U', '!', ('call', [('k', 'a'), ('b', 'b')], name, [('str', a)])), {"a": {"b": subj}}, {}))
-    return out
-
-
 def classify(ctx, q, sem_obj, rec_text):
     """class tag of a disagreement between the reference semantics and the implementation"""
     if q is not None and (kfl.tail_not_last(q) or sem_obj.tail_missing):
         return "select-tail-scope"
-    if oj_misparses(rec_text):
+    if kfl.oj_misparses(rec_text):
         return "oj-float-parse"
     return None
-
-
-def oj_misparses(text):
-    """does the record contain a number that ojg's parser (I + Frac/Div, then * Pow10) does not
-    convert to the nearest float64"""
-    import re
-    for m in re.finditer(r'-?\d+(?:\.\d+)?(?:[eE][+-]?\d+)?', text):
-        lit = m.group(0)
-        if not any(c in lit for c in ".eE"):
-            continue
-        mm = re.match(r'(-?)(\d+)(?:\.(\d+))?(?:[eE]([+-]?\d+))?$', lit)
-        neg, ip, fp, ex = mm.group(1), mm.group(2), mm.group(3) or "", int(mm.group(4) or 0)
-        if len(ip) > 18 or len(fp) > 18:
-            return True
-        f = float(int(ip))
-        if fp and int(fp) > 0:
-            f += float(int(fp)) / float(10 ** len(fp))
-        if ex:
-            f = f * pow10(ex)
-        if neg:
-            f = -f
-        if f != float(lit):
-            return True
-    return False
-
-
-def pow10(n):
-    """math.Pow10 of Go"""
-    if 0 <= n <= 308:
-        return float("1e%d" % (n // 32 * 32)) * float("1e%d" % (n % 32))
-    if -323 <= n <= 0:
-        return float("1e-%d" % (-n // 32 * 32)) / float("1e%d" % (-n % 32))
-    return float('inf') if n > 0 else 0.0
-
-
-CHK = """
-Definition case_t := (tables * expr * jv * option bool * N)%type.
-Definition code (c : case_t) : nat :=
-  let '(t, e, r, obs, lim) := c in
-  (if agrees t e r obs then 0 else 1) +
-  (match sem (t_float t) (t_re t) (t_time t) (t_b64 t) (t_json t) (t_xml t) e r, obs with
-   | Some b, Some b' => if Bool.eqb b b' then 0 else 2
-   | Some _, None => 2
-   | None, _ => 0
-   end) +
-  (if N.eqb (limit_model t e) lim || negb (limit_defined t e) then 0 else 4) +
-  (if N.eqb (limit_model t e) (limit_spec t e) then 0 else 8) +
-  (match sem (t_float t) (t_re t) (t_time t) (t_b64 t) (t_json t) (t_xml t) e r with Some _ => 16 | None => 0 end).
-"""
-
-
-def k_codes(ctx, name, items, chunk=100, timeout=900):
-    return kfl.k_map(ctx, name, CHK, "code", items, chunk=chunk, timeout=timeout)
 
 
 def run(ctx):
@@ -178,7 +66,7 @@ def run(ctx):
         pairs = [(q, r) for q in small_q for r in small_r]
     for q, r in pairs:
         cases.append(("small", q, kfl.render(q), kfl.json_of(r), None, {}))
-    for q, r, docs in gen_special_cases(rng, now_ms):
+    for q, r, docs in kfl.gen_special_cases(rng, now_ms):
         cases.append(("helper", q, kfl.render(q), kfl.json_of(r), None, docs))
     nrand = 1500 if quick else 20000
     for _ in range(nrand):
@@ -258,7 +146,7 @@ def run(ctx):
         if len(kitems) > kmax:
             sel = sorted(rng.sample(range(len(kitems)), kmax))
             kitems, kidx = [kitems[j] for j in sel], [kidx[j] for j in sel]
-        codes = k_codes(ctx, "k12", kitems)
+        codes = kfl.k_codes(ctx, "k12", kitems)
         if codes is None:
             ctx.broken.append("K_eval: coqc failed on the case file")
         else:
